@@ -15,7 +15,7 @@ import numpy as np
 from . import common
 from . import c10_translate
 
-THEOREM_FILES = ['NumqiProps/C10.lean', 'NumqiProps/C10Generated.lean', 'NumqiProps/C10Validity.lean']
+THEOREM_FILES = ['NumqiProps/C10.lean', 'NumqiProps/C10Generated.lean']
 GREP_FILES = ['NumqiModel/Generated/SeedPrograms.lean']
 LEVEL = 'proof'
 RULE = ('one model program per function/method/class with a seed (or generator) parameter in the nine anchored files, regenerated from the source on '
@@ -577,10 +577,180 @@ def correspondence(ctx):
     ctx.extra['interpreter_self_runs'] = nself
     ctx.extra['recipes'] = len({(r['name'], r['label']) for r in res})
     ctx.extra['exhaustive'] = False
+    validity_tie(ctx)
     try:
         extras(ctx)
     except Exception as e:      # evidence only: never affects the verdict
         ctx.note(f'extra entry points: not evaluated ({type(e).__name__}: {e})')
+
+
+# ---------------------------------------------------------------------------------------------------------
+# validity tie: the final normalisation steps (lean/NumqiModel/RandNorm.lean) on the raw draws of the real generator
+# ---------------------------------------------------------------------------------------------------------
+class RecGen(np.random.Generator):
+    """a numpy Generator that records what it hands out"""
+    def __init__(self, seed):
+        super().__init__(np.random.PCG64(seed))
+        self.log = []
+    def normal(self, *a, **k):
+        r = super().normal(*a, **k); self.log.append(('normal', np.array(r, copy=True))); return r
+    def uniform(self, *a, **k):
+        r = super().uniform(*a, **k); self.log.append(('uniform', np.array(r, copy=True))); return r
+    def integers(self, *a, **k):
+        r = super().integers(*a, **k); self.log.append(('integers', np.array(r, copy=True))); return r
+
+
+class Capture:
+    """records the outputs (and inputs) of the LAPACK calls and of the nested generators during one call"""
+    def __init__(self):
+        self.calls = []
+    def __enter__(self):
+        import numqi.random._internal as I
+        self.saved = []
+        cap = self
+        def wrap(owner, name):
+            orig = getattr(owner, name)
+            def w(*a, **k):
+                r = orig(*a, **k)
+                cap.calls.append((name, [np.array(x, copy=True) for x in a if isinstance(x, np.ndarray)], r))
+                return r
+            self.saved.append((owner, name, orig))
+            setattr(owner, name, w)
+        for nm in ('qr', 'eigh', 'inv'):
+            wrap(np.linalg, nm)
+        for nm in ('_random_complex', 'rand_haar_unitary', 'rand_special_orthogonal_matrix'):
+            wrap(I, nm)
+        return self
+    def __exit__(self, *exc):
+        for owner, name, orig in self.saved:
+            setattr(owner, name, orig)
+        return False
+    def outs(self, name):
+        return [c[2] for c in self.calls if c[0] == name]
+    def ins(self, name):
+        return [c[1] for c in self.calls if c[0] == name]
+
+
+def cbits(a):
+    a = np.ascontiguousarray(np.asarray(a, dtype=np.complex128)).reshape(-1)
+    if a.size == 0:
+        return '-'
+    re = a.real.copy().view(np.uint64); im = a.imag.copy().view(np.uint64)
+    return ','.join(f'{int(x)}:{int(y)}' for x, y in zip(re, im))
+
+
+def parse_cbits(line):
+    vals = []
+    for t in line.split(','):
+        x, y = t.split(':')
+        vals.append(complex(np.array([int(x)], dtype=np.uint64).view(np.float64)[0], np.array([int(y)], dtype=np.uint64).view(np.float64)[0]))
+    return np.array(vals)
+
+
+def validity_tie(ctx):
+    """model of the last lines of each generator, run on the captured raw draws / LAPACK outputs, against the real output"""
+    import numqi
+    R = numqi.random
+    ops, want, tols = [], [], []
+    def add(op, out, tol=1e-11):
+        ops.append('C10 nz ' + op); want.append(np.asarray(out)); tols.append(tol)
+    seeds = [ctx.seed * 100 + i for i in range(2 if ctx.quick() else 8)]
+    for s in seeds:
+        for d in (1, 3, 6):
+            for tc in (True, False):
+                g = RecGen(s)
+                with Capture() as c:
+                    out = R.rand_haar_state(d, tag_complex=tc, seed=g)
+                raw = c.outs('_random_complex')[-1] if tc else g.log[-1][1]
+                add(f'vec {d} {cbits(raw)}', out)
+            for size in (None, (2, 3)):
+                g = RecGen(s)
+                out = R.rand_n_sphere(d, size=size, seed=g)
+                raw = g.log[0][1]
+                for row_raw, row_out in zip(raw.reshape(-1, d), np.asarray(out).reshape(-1, d)):
+                    add(f'vec {d} {cbits(row_raw)}', row_out)
+                g = RecGen(s)
+                out = R.rand_n_ball(d, size=size, seed=g)
+                raw, u = g.log[0][1], g.log[1][1]
+                for row_raw, ui, row_out in zip(raw.reshape(-1, d), u.reshape(-1), np.asarray(out).reshape(-1, d)):
+                    add(f'ball {d} {cbits(row_raw)} {cbits([ui])}', row_out)
+        for d in (1, 2, 4):
+            with Capture() as c:
+                out = R.rand_haar_unitary(d, seed=RecGen(s))
+            Q, Rm = c.outs('qr')[0]
+            add(f'signfix {d} {cbits(Q)} {cbits(np.diag(Rm))}', out, 0.0)
+        for d, k in ((2, None), (3, 1), (3, 2), (4, None)):
+            kk = d if k is None else k
+            with Capture() as c:
+                out = R.rand_density_matrix(d, k=k, kind='haar', seed=RecGen(s))
+            add(f'dm {d} {kk} {cbits(c.outs("_random_complex")[0])}', out)
+            with Capture() as c:
+                out = R.rand_density_matrix(d, k=k, kind='bures', seed=RecGen(s))
+            add(f'dmb {d} {kk} {cbits(c.outs("rand_haar_unitary")[0])} {cbits(c.outs("_random_complex")[0])}', out)
+        for d, m in ((2, 2), (3, 4)):
+            g = RecGen(s)
+            with Capture() as c:
+                out = R.rand_povm(d, m, seed=g)
+            B = g.log[0][1] + 1j * g.log[1][1]
+            evl, evc = c.outs('eigh')[0]
+            add(f'povm {d} {m} {cbits(B)} {cbits(evl)} {cbits(evc)}', out, 1e-10)
+            add(f'povmsum {d} {m} {cbits(B)}', c.ins('eigh')[0][0], 1e-11)
+        for (nt, di, do, tc) in ((1, 2, 2, True), (3, 2, 3, True), (2, 3, 2, False)):
+            g = RecGen(s)
+            with Capture() as c:
+                out = R.rand_kraus_op(nt, di, do, tag_complex=tc, seed=g)
+            raw = g.log[0][1]
+            z0 = raw.astype(np.float64, copy=False).view(np.complex128) if tc else raw
+            add(f'kraus {nt} {do} {di} {cbits(z0)} {cbits(c.outs("inv")[0])}', out, 1e-10)
+        for d in (2, 3):
+            for tc in (True, False):
+                g = RecGen(s)
+                with Capture() as c:
+                    out = R.rand_hermitian_matrix(d, eig=(-1.0, 2.0), tag_complex=tc, seed=g)
+                evl = g.log[0][1]
+                evc = c.outs('rand_special_orthogonal_matrix')[0]
+                add(f'herm {d} {cbits(evc)} {cbits(evl)}', out, 1e-11)
+        for (di, do, rank) in ((2, 2, None), (2, 3, 2)):
+            g = RecGen(s)
+            with Capture() as c:
+                out = R.rand_choi_op(di, do, rank=rank, seed=g)
+            r = di * do if rank is None else rank
+            G = g.log[0][1] + 1j * g.log[1][1]
+            evl, evc = c.outs('eigh')[0]
+            add(f'choi {di} {do} {r} {cbits(G)} {cbits(evl)} {cbits(evc)}', out, 1e-10)
+            add(f'choipt {di} {do} {r} {cbits(G)}', c.ins('eigh')[0][0], 1e-11)
+        for d in (2, 5):
+            g = RecGen(s)
+            out = R.rand_adjacent_matrix(d, seed=g)
+            raw = g.log[0][1]
+            ops.append(f'C10 nz adj {d} ' + ';'.join(str(int(x)) for x in raw.reshape(-1)))
+            want.append(';'.join(str(int(x)) for x in np.asarray(out).reshape(-1))); tols.append(None)
+    model = common.run_model(ops)
+    worst = 0.0
+    for op, w, tol, m in zip(ops, want, tols, model):
+        kind = 'nz-' + op.split(' ')[2]
+        ctx.count(kind)
+        short = op if len(op) < 160 else op[:160] + '…'
+        if tol is None:
+            (ctx.agree(short, short) if m == w else ctx.disagree(short, m, w))
+            continue
+        try:
+            got = parse_cbits(m)
+        except Exception:
+            ctx.disagree(short, m[:200], 'array'); continue
+        ref = np.asarray(w, dtype=np.complex128).reshape(-1)
+        if got.shape != ref.shape:
+            ctx.disagree(short, f'shape {got.shape}', f'shape {ref.shape}'); continue
+        err = float(np.abs(got - ref).max()) if ref.size else 0.0
+        worst = max(worst, err)
+        if err <= tol * max(1.0, float(np.abs(ref).max()) if ref.size else 1.0):
+            ctx.agree(short, short)
+        else:
+            ctx.disagree(short, f'max |model - impl| = {err:.3e}', f'tolerance {tol}')
+    ctx.extra['validity_tie_ops'] = len(ops)
+    ctx.extra['validity_tie_max_abs_err'] = worst
+    ctx.assumptions.append('validity tie: model (binary64, left-to-right sums) vs numpy on the same raw draws, tolerance 1e-11 (1e-10 after an inverse square root), '
+                           'measured max error %.1e; sign fix of rand_haar_unitary and rand_adjacent_matrix compared exactly' % worst)
 
 
 # ---------------------------------------------------------------------------------------------------------
